@@ -245,6 +245,8 @@ type EnvNested struct {
 	MC  EnvMethClash
 	U   EnvUnexported
 	Fn  EnvFuncs
+	MIF map[int]func(int) int // key type not a string: MIF.foo(1) is no method call the checker may accept
+	MBF map[bool]func(int) int
 	MIf map[interface{}]int // key type interface{}: a string constant is a usable key (MIf.k)
 	MSg map[ZStringer]int   // key type a non-empty interface: it is not
 	Pb  ZProto
@@ -309,7 +311,9 @@ type EnvScalars struct {
 	Nf   ZNamedFast                       // named func type of the fast shape: not fast
 	Fe   func(...interface{}) error       // result of interface kind, but not interface{}: not fast
 	Fg   func(...ZStringer) interface{}   // variadic over a non-empty interface: not fast
-	PI   *int                             // pointers to scalars: the checker dereferences operand types
+	MIF  map[int]func(int) int            // a map whose key type is not a string, holding functions
+	MIK  map[int]string
+	PI   *int // pointers to scalars: the checker dereferences operand types
 	PF64 *float64
 	PStr *string
 	NPI  *int           // nil
